@@ -37,3 +37,23 @@ Theorem C10_inapplicable_sum_factorisation_is_switched_off :
   sumfact_off_without_tensor_rule = true.
 Proof. reflexivity. Qed.
 Print Assumptions C10_inapplicable_sum_factorisation_is_switched_off.
+
+(* part='diagonal', per sampled kernel pair and for ALL inputs: if SymEq.diagonal_equiv computes
+   true (vm_compute per exported pair and entity/permutation value) then, started from a zero
+   tensor, the rank-1 kernel returns exactly the diagonal of what the rank-2 kernel returns. *)
+From Coq Require Import String.
+From FFCX Require Import LN Sym SymEq.
+
+Theorem C10_diagonal_kernel_equals_diagonal_of_full_kernel_for_all_inputs :
+  forall (of_lit : Z -> Z -> Z) (of_clit : Z -> Z -> Z -> Z -> Z) (tdiv : Z -> Z -> Z)
+         (teqb tltb tleb : Z -> Z -> bool) (tfn : string -> list Z -> Z) (rho : ident -> Z -> Z)
+         (inp : @inputs sx) (k_full k_diag : list stmt) (n : nat),
+    diagonal_equiv inp k_full k_diag n = true ->
+    exists rf rd,
+      @run_kernel Z (fun z => z) of_lit of_clit Z.add Z.sub Z.mul tdiv Z.opp teqb tltb tleb tfn
+        (imap Z (fun z => z) of_lit of_clit Z.add Z.sub Z.mul tdiv Z.opp tfn rho inp) k_full (repeat (VF 0%Z) (n * n)) = Some rf /\
+      @run_kernel Z (fun z => z) of_lit of_clit Z.add Z.sub Z.mul tdiv Z.opp teqb tltb tleb tfn
+        (imap Z (fun z => z) of_lit of_clit Z.add Z.sub Z.mul tdiv Z.opp tfn rho inp) k_diag (repeat (VF 0%Z) n) = Some rd /\
+      rd = diag_of n n rf /\ List.length rd = n.
+Proof. exact diagonal_equiv_sound. Qed.
+Print Assumptions C10_diagonal_kernel_equals_diagonal_of_full_kernel_for_all_inputs.
